@@ -31,7 +31,7 @@ func callersHold(p *Program, fn *ssa.Function, lockField string, needW bool) (bo
 			}
 			n++
 			if li == nil {
-				li = Locks(caller)
+				li = LocksInherit(caller)
 			}
 			recv := stripAmp(Term(cs.Common().Args[0]))
 			held := li.Held(cs.Instr)
